@@ -181,6 +181,42 @@ func c15Check(cs c15Case) string {
 				}
 			}
 		}
+	case "stream":
+		// several sequences in one evaluation: each is answered on its own (what `op` gives for a sequence evaluated alone)
+		for _, op := range []string{"min", "max", "sort", "sort | .[0]", "unique", "sort_keys(.)", "[.[] | . < 2]"} {
+			var alone []string
+			skip := false
+			for _, seq := range cs.Els {
+				res, err, pan := c15Run1(op, seq)
+				if pan != nil {
+					return fmt.Sprintf("%s | %s panics: %v", seq, op, pan)
+				}
+				if err != nil {
+					skip = true
+					break
+				}
+				for _, r := range res {
+					alone = append(alone, impl.ToV(r).String())
+				}
+			}
+			if skip {
+				continue
+			}
+			res, err, pan := c15Run1(".[] | "+op, "["+strings.Join(cs.Els, ", ")+"]")
+			if pan != nil {
+				return fmt.Sprintf(".[] | %s panics: %v", op, pan)
+			}
+			if err != nil {
+				return fmt.Sprintf("[%s] | .[] | %s fails (%v) although every sequence is answered on its own", strings.Join(cs.Els, ", "), op, err)
+			}
+			var together []string
+			for _, r := range res {
+				together = append(together, impl.ToV(r).String())
+			}
+			if strings.Join(together, " ; ") != strings.Join(alone, " ; ") {
+				return fmt.Sprintf("[%s] | .[] | %s gives [%s]; each sequence alone gives [%s]", strings.Join(cs.Els, ", "), op, strings.Join(together, " ; "), strings.Join(alone, " ; "))
+			}
+		}
 	case "triple":
 		x, y, z := cs.Els[0], cs.Els[1], cs.Els[2]
 		lt := func(a, b string) bool { r, _ := c15Lt(a, b); return r }
@@ -363,7 +399,7 @@ func c15Run(c *fw.Ctx) error {
 	if c.Thorough() {
 		seqLen = 4
 	}
-	c.Res.Bound = fmt.Sprintf("all pairs and triples of %d scalars; all sequences of length <= %d over them; all 2^16 two-key patterns of length 16 (thorough: + 3^10 three-key patterns of length 14 prefix-closed); all key permutations of <= 4 keys for sort_keys", len(al), seqLen)
+	c.Res.Bound = fmt.Sprintf("all pairs and triples of %d scalars; all sequences of length <= %d over them; all 2^16 two-key patterns of length 16 (thorough: + 3^10 three-key patterns of length 14 prefix-closed); all key permutations of <= 4 keys for sort_keys; streams: every ordered pair (and triples over a core) of 44 short sequences through one evaluation of min, max, sort, unique, sort_keys, a comparison", len(al), seqLen)
 	var idx int64
 	do := func(cs c15Case, order int64) {
 		idx++
@@ -385,6 +421,16 @@ func c15Run(c *fw.Ctx) error {
 		c.Count("mismatch_"+cs.Kind, 1)
 		// signature: the law and the classes/spellings involved for pairs; the law for longer cases
 		sig := cs.Kind + ":" + strings.SplitN(msg, ":", 2)[0]
+		if cs.Kind == "stream" {
+			// the operator is the culprit atom
+			sig = "stream"
+			for _, op := range []string{"sort_keys(.)", "sort | .[0]", "[.[] | . < 2]", "unique", "sort", "min", "max"} {
+				if strings.Contains(msg, "| "+op+" ") || strings.Contains(msg, "| "+op+"\n") {
+					sig = "stream:" + op
+					break
+				}
+			}
+		}
 		if cs.Kind == "pair" {
 			sig += ":" + cs.Els[0] + "," + cs.Els[1]
 		}
@@ -458,6 +504,28 @@ func c15Run(c *fw.Ctx) error {
 		}
 	}
 	perm(nil, make([]bool, len(keys)))
+	// streams: every ordered pair and triple of short sequences goes through one evaluation
+	{
+		scal := []string{"1", "2", "10", "-1", `"a"`, `"b"`}
+		var seqs []string
+		for _, a := range scal {
+			seqs = append(seqs, "["+a+"]")
+			for _, b := range scal {
+				seqs = append(seqs, "["+a+", "+b+"]")
+			}
+		}
+		seqs = append(seqs, "[]", "[3, 1, 2]")
+		for i, a := range seqs {
+			for j, b := range seqs {
+				do(c15Case{Kind: "stream", Els: []string{a, b}}, 6e6+int64(i*100+j))
+				if i < 8 && j < 8 {
+					for _, d := range seqs[:8] {
+						do(c15Case{Kind: "stream", Els: []string{a, b, d}}, 7e6+int64(i*100+j))
+					}
+				}
+			}
+		}
+	}
 	return nil
 }
 
